@@ -890,6 +890,10 @@ func (h *vHist) apply(w *vWorld, ops []vOp) {
 			}
 			h.assert("C03.reg", w.nexec == before)
 			h.assert("C14.nopanic", o.class != vcPanicked)
+			if o.class != vcOK && o.class != vcPanicked {
+				// a rejection originates in dig: a cycle error or a dig.Error
+				h.assert("C13.regdig", o.class == vcCycle || o.class == vcDig)
+			}
 			if h.p.allAccepted {
 				verifAssume(o.class == vcOK)
 			}
